@@ -327,6 +327,11 @@ func synthParams(r *core.Rand) *chaincfg.Params {
 	p.ReduceMinDifficulty = r.Bool()
 	p.MinDiffReductionTime = time.Duration(r.Pick(0, 1, 2*per, 3*per)) * time.Second
 	p.EnforceBIP94 = r.Bool()
+	if r.Chance(1, 6) {
+		// PowLimitBits need not be the compact form of PowLimit in a synthetic set: the cap uses PowLimit,
+		// the genesis / min-difficulty / no-retarget rules use PowLimitBits
+		p.PowLimitBits = blockchain.BigToCompact(new(big.Int).Rsh(p.PowLimit, uint(1+r.Intn(12))))
+	}
 	return &p
 }
 
